@@ -73,6 +73,10 @@ PIX = "boost/gil/pixel_iterator.hpp"
 PLN = "boost/gil/planar_pixel_iterator.hpp"
 CAST = [(r"\(P\*\)", ""), (r"\((?:unsigned )?char\s*\*\)", ""), (r"gil_reinterpret_cast_c<unsigned char const\*>", "")]
 SYMS += [
+    Sym(I2, r"bool equal\(iterator_from_2d const& it\) const", "it2d_equal",
+        [("_coords.x", PD), ("_coords.y", PD), ("it_x", PD), ("it_y", PD), ("p_pos", PD), ("it_pos", PD)], ret="bool",
+        subst=[(r"_coords == it\._coords", "(_coords.x == it_x && _coords.y == it_y)"), (r"_p == it\._p", "(p_pos == it_pos)")],
+        doc="iterator_from_2d::equal: same coordinates and same locator (p_pos / it_pos: positions of the two locators)"),
     Sym(PIX, r"inline P\* memunit_advanced\(const P\* p, std::ptrdiff_t diff\)", "ptr_memunit_advanced", [("p", PD), ("diff", PD)], ret=PD, subst=CAST,
         doc="memunit_advanced(P const*, diff): byte address of the advanced pointer"),
     Sym(PIX, r"inline void memunit_advance\(P\* &p, std::ptrdiff_t diff\)", "ptr_memunit_advance", [("p", PD), ("diff", PD)], outputs=["p"], subst=CAST,
